@@ -404,6 +404,22 @@ type ModelIPFSConn struct {
 	Blocks map[string][]byte
 	mu     sync.Mutex
 	Paths  map[string]cid.Cid // Resolve table
+	// a slow daemon: simulated time RepoStat / PinLs take (set before use)
+	StatDelay, LsDelay time.Duration
+}
+
+func sleepOrDone(ctx context.Context, d time.Duration) error {
+	if d <= 0 {
+		return nil
+	}
+	t := time.NewTimer(d)
+	defer t.Stop()
+	select {
+	case <-t.C:
+		return nil
+	case <-ctx.Done():
+		return ctx.Err()
+	}
 }
 
 func NewModelIPFSConn(m *ModelIPFS) *ModelIPFSConn {
@@ -422,12 +438,18 @@ func (i *ModelIPFSConn) PinLsCid(ctx context.Context, p *api.Pin) (api.IPFSPinSt
 	return i.M.LsCid(p)
 }
 func (i *ModelIPFSConn) PinLs(ctx context.Context, f string) (map[string]api.IPFSPinStatus, error) {
+	if err := sleepOrDone(ctx, i.LsDelay); err != nil {
+		return nil, err
+	}
 	return i.M.Ls(f)
 }
 func (i *ModelIPFSConn) ConnectSwarms(context.Context) error           { return nil }
 func (i *ModelIPFSConn) SwarmPeers(context.Context) ([]peer.ID, error) { return nil, nil }
 func (i *ModelIPFSConn) ConfigKey(string) (interface{}, error)         { return nil, errors.New("no such key") }
-func (i *ModelIPFSConn) RepoStat(context.Context) (*api.IPFSRepoStat, error) {
+func (i *ModelIPFSConn) RepoStat(ctx context.Context) (*api.IPFSRepoStat, error) {
+	if err := sleepOrDone(ctx, i.StatDelay); err != nil {
+		return nil, err
+	}
 	return &api.IPFSRepoStat{RepoSize: 1000, StorageMax: 1000000}, nil
 }
 func (i *ModelIPFSConn) RepoGC(context.Context) (*api.RepoGC, error) { return &api.RepoGC{}, nil }
